@@ -177,11 +177,21 @@ pub fn run(ctx: &Ctx) -> Report {
     let quick = ctx.quick();
     // ---- corruption sweep
     let all = specs(ctx, quick);
-    let sp: Vec<&Spec> = all
+    // deep instances: 12 and 15 layers (every inner layer must be authenticated, not only the first ten)
+    let deep: Vec<Spec> = (if quick { vec![12usize] } else { vec![12usize, 15] })
+        .iter()
+        .map(|n| {
+            let mut steps = vec![0u32];
+            steps.extend(std::iter::repeat(1u32).take(n - 1));
+            Spec { params: crate::refm::fri::Params { steps, last: 0, blowup: 1, n_friendly: 3 }, poly: 2, seed: 2 }
+        })
+        .collect();
+    let mut sp: Vec<&Spec> = all
         .iter()
         .filter(|s| s.seed == 2 && (s.poly == 2 || (s.poly == 0 && s.params.n_friendly == 0)))
         .filter(|s| !quick || s.params.log_input_size() <= 6)
         .collect();
+    sp.extend(deep.iter());
     let parts: Vec<Report> = sp
         .par_iter()
         .map(|s| {
@@ -192,7 +202,7 @@ pub fn run(ctx: &Ctx) -> Report {
             }
             let mut qsets = query_sets(&s.params, 0, 0);
             if quick {
-                qsets.truncate(7);
+                qsets.truncate(if s.params.steps.len() >= 12 { 3 } else { 7 });
             }
             for qs in qsets {
                 let honest = Instance::from(&prover, &prover.open(&qs));
